@@ -186,33 +186,34 @@ pub open spec fn imghdr_parse_post(h: ImageHeader, hin: Seq<u8>, hrest: Seq<u8>)
 pub open spec fn imghdr_found_canonical(hin: Seq<u8>) -> bool {
     hin.len() >= 4 && hin[2] == 1 ==> (if hin[3] == 1 { le16_val(hin) == 16 } else { le16_val(hin) <= hin.len() })
 }
-/// UserAttribute::try_from_reader returned Ok(x) for the header `ph` on the packet body `inp` and left `rest`
+/// UserAttribute::try_from_reader returned Ok(x) for the header `ph` on the packet body `inp` and left `rest`:
+/// length (kept in the encoding it was read with), type octet, then a body of min(declared - 1, available) octets
 pub open spec fn uattr_parse_post(x: UserAttribute, ph: PacketHeader, inp: Seq<u8>, rest: Seq<u8>) -> bool {
     let l = uattr_splen(x);
     &&& uattr_header(x) == ph
-    // the length keeps the encoding it was read with
     &&& splen_wf(l) && splen_dec(inp) == Some((splen_w(l), splen_n(l)))
-    &&& splen_w(l) <= inp.len()
+    // the declared length covers at least the type octet, and it is there
+    &&& splen_n(l) >= 1 && splen_w(l) < inp.len()
     &&& ({
-        let after = inp.skip(splen_w(l));
+        let typ = inp[splen_w(l)];
+        let avail = inp.skip(splen_w(l)).skip(1);
         // never more than the declared length, never more than what is there
-        let k = min_nat(splen_n(l), after.len()) as int;
-        let offered = after.subrange(0, k);
-        &&& k >= 1
-        &&& rest == after.skip(k)
+        let kb = min_nat((splen_n(l) - 1) as nat, avail.len()) as int;
+        let body = avail.subrange(0, kb);
+        &&& rest == avail.skip(kb)
         &&& match x {
-            UserAttribute::Image { packet_header, subpacket_len, header, data } => offered[0] == 1 && imghdr_parse_post(header, offered.skip(1), data@),
-            UserAttribute::Unknown { packet_header, subpacket_len, typ, data } => offered[0] != 1 && typ == UserAttributeType::Unknown(offered[0]) && data@ == offered.skip(1),
+            UserAttribute::Image { packet_header, subpacket_len, header, data } => typ == 1 && imghdr_parse_post(header, body, data@),
+            UserAttribute::Unknown { packet_header, subpacket_len, typ: t, data } => typ != 1 && t == UserAttributeType::Unknown(typ) && data@ == body,
         }
     })
 }
-/// the packet body holds the whole subpacket it announces and, for an image, a header in the defined form
+/// the image header (if any) of the packet body is in the defined form
 pub open spec fn uattr_found_canonical(inp: Seq<u8>) -> bool {
-    splen_dec(inp) matches Some((w, n)) ==> w <= inp.len() && ({
-        let after = inp.skip(w);
-        let k = min_nat(n, after.len()) as int;
-        k >= 1 && after[0] == 1 ==> imghdr_found_canonical(after.subrange(0, k).skip(1))
-    })
+    splen_dec(inp) matches Some((w, n)) ==> (n >= 1 && w < inp.len() && inp[w] == 1 ==> ({
+        let avail = inp.skip(w).skip(1);
+        let kb = min_nat((n - 1) as nat, avail.len()) as int;
+        imghdr_found_canonical(avail.subrange(0, kb))
+    }))
 }
 
 proof fn lemma_le16_of_val(s: Seq<u8>)
@@ -279,19 +280,21 @@ pub proof fn lemma_imghdr_round_trip(h: ImageHeader, t: Seq<u8>, h2: ImageHeader
 /// C05 (length): parse then serialise gives back as many octets as were consumed, whatever the input
 pub proof fn lemma_uattr_parse_len(x: UserAttribute, ph: PacketHeader, inp: Seq<u8>, rest: Seq<u8>)
     requires uattr_parse_post(x, ph, inp, rest)
-    ensures inp.len() == uattr_wire(x).len() + rest.len(), uattr_inv(x),
+    ensures inp.len() == uattr_wire(x).len() + rest.len(), uattr_inv(x), // [C05]
         // the value never holds more than the length field announces, and less only at the end of the input
         1 + uattr_body(x).len() <= splen_n(uattr_splen(x)),
         1 + uattr_body(x).len() < splen_n(uattr_splen(x)) ==> rest.len() == 0,
+        // C04: what is allocated for the value is bounded by the octets present, whatever the length fields claim
+        uattr_body(x).len() < inp.len(), // [C04]
 {
     let l = uattr_splen(x);
     lemma_splen_enc_len(splen_w(l), splen_n(l));
-    let after = inp.skip(splen_w(l));
-    let k = min_nat(splen_n(l), after.len()) as int;
-    let offered = after.subrange(0, k);
+    let avail = inp.skip(splen_w(l)).skip(1);
+    let kb = min_nat((splen_n(l) - 1) as nat, avail.len()) as int;
+    let body = avail.subrange(0, kb);
     match x {
         UserAttribute::Image { packet_header, subpacket_len, header, data } => {
-            lemma_imghdr_parse_len(header, offered.skip(1), data@);
+            lemma_imghdr_parse_len(header, body, data@);
         }
         UserAttribute::Unknown { packet_header, subpacket_len, typ, data } => {}
     }
@@ -299,17 +302,18 @@ pub proof fn lemma_uattr_parse_len(x: UserAttribute, ph: PacketHeader, inp: Seq<
 /// C05 (identical octets): a canonically encoded packet body is the wire form of the value parsed from it
 pub proof fn lemma_uattr_parse_canonical(x: UserAttribute, ph: PacketHeader, inp: Seq<u8>, rest: Seq<u8>)
     requires uattr_parse_post(x, ph, inp, rest), uattr_found_canonical(inp)
-    ensures inp == uattr_wire(x) + rest
+    ensures inp == uattr_wire(x) + rest // [C05]
 {
     let l = uattr_splen(x);
     lemma_splen_enc_dec(inp);
     let after = inp.skip(splen_w(l));
-    let k = min_nat(splen_n(l), after.len()) as int;
-    let offered = after.subrange(0, k);
-    assert(after =~= seq![offered[0]] + offered.skip(1) + rest);
+    let avail = after.skip(1);
+    let kb = min_nat((splen_n(l) - 1) as nat, avail.len()) as int;
+    let body = avail.subrange(0, kb);
+    assert(after =~= seq![inp[splen_w(l)]] + body + rest);
     match x {
         UserAttribute::Image { packet_header, subpacket_len, header, data } => {
-            lemma_imghdr_parse_canonical(header, offered.skip(1), data@);
+            lemma_imghdr_parse_canonical(header, body, data@);
             assert(inp =~= uattr_wire(x) + rest);
         }
         UserAttribute::Unknown { packet_header, subpacket_len, typ, data } => {
@@ -333,12 +337,13 @@ pub proof fn lemma_uattr_round_trip(x: UserAttribute, t: Seq<u8>, y: UserAttribu
     assert(l2 == l);
     let after = inp.skip(splen_w(l));
     assert(after == tail);
-    let k = min_nat(splen_n(l), after.len()) as int;
-    assert(k == 1 + body.len());
-    let offered = after.subrange(0, k);
-    assert(offered =~= seq![uattr_type_octet(x)] + body);
-    assert(offered.skip(1) =~= body);
-    assert(after.skip(k) =~= t);
+    assert(inp[splen_w(l)] == after[0]);
+    let avail = after.skip(1);
+    assert(avail =~= body + t);
+    let kb = min_nat((splen_n(l) - 1) as nat, avail.len()) as int;
+    assert(kb == body.len());
+    assert(avail.subrange(0, kb) =~= body);
+    assert(avail.skip(kb) =~= t);
     match x {
         UserAttribute::Image { packet_header, subpacket_len, header, data } => {
             match y {
